@@ -182,13 +182,14 @@ func imageWithOnlyPaths(image Image, fileOrDirPaths []string, excludeFileOrDirPa
 	// we check the matchingPotentialDirPathMap against the potentialDirPathMap
 	// to make sure that potentialDirPathMap is covered
 	if !allowNotExist {
-		for potentialDirPath := range potentialDirPathMap {
+		// Iterate over the slices, not the maps, so that the path named in the error is deterministic.
+		for _, potentialDirPath := range potentialDirPaths {
 			if _, ok := matchingPotentialDirPathMap[potentialDirPath]; !ok {
 				// no match, this is an error given that allowNotExist is false
 				return nil, fmt.Errorf("path %q has no matching file in the image", potentialDirPath)
 			}
 		}
-		for excludeFileOrDirPath := range excludeFileOrDirPathMap {
+		for _, excludeFileOrDirPath := range excludeFileOrDirPaths {
 			if _, ok := matchingPotentialExcludePathMap[excludeFileOrDirPath]; !ok {
 				// no match, this is an error given that allowNotExist is false
 				return nil, fmt.Errorf("path %q has no matching file in the image", excludeFileOrDirPath)
